@@ -12,6 +12,9 @@ func c19Profiles(tier string) []Profile {
 	if tier == "thorough" {
 		d = 5
 	}
+	// keys of different lengths: a read sized by one item's key must not run
+	// into the value of an item with a shorter key
+	kA, kB, kC := bs("a"), bs("bbbbbb"), bs("ccc")
 	keys := [][]byte{kA, kB, kC}
 	p := &SeqProfile{Name: "lazy", Keys: keys, Depth: d, Init: initX, Mon: mon,
 		Finish: func(w *harness.World) {
@@ -39,7 +42,7 @@ func c19Profiles(tier string) []Profile {
 			for _, k := range keys {
 				k := k
 				ls = append(ls,
-					Letter{fmt.Sprintf("Set(%s)", k), func(w *harness.World) { w.SetItem("x", k, int32(k[0]%3)+1, bs("val-"+string(k))) }},
+					Letter{fmt.Sprintf("Set(%s)", k), func(w *harness.World) { w.SetItem("x", k, int32(k[0]%3)+1, bs("value-of-"+string(k))) }},
 					Letter{fmt.Sprintf("Del(%s)", k), func(w *harness.World) { w.Delete("x", k) }},
 					Letter{fmt.Sprintf("GetItem(%s,-)", k), func(w *harness.World) { w.GetItem("x", k, false) }})
 			}
